@@ -50,8 +50,8 @@ def binomial_table(res, Lmax, smax):
 # ===========================================================================
 # C13
 # ===========================================================================
-C13_BOUNDS = {"quick": dict(N=20, P=6, K=2, LA=8),
-              "thorough": dict(N=44, P=12, K=3, LA=12)}
+C13_BOUNDS = {"quick": dict(N=26, P=14, K=2, LA=10, BS=5),
+              "thorough": dict(N=50, P=26, K=3, LA=13, BS=6)}
 
 
 def c13_eval(cfg, opt):
@@ -108,11 +108,11 @@ def check_c13(prop, tier):
     res = common.Result(prop, tier)
     B = C13_BOUNDS[tier]
     res.bounds = dict(B)
-    opt = binomial_table(res, B["LA"], 5)
+    opt = binomial_table(res, B["LA"], B["BS"] + 1)
     cfgs = []
     for n in range(1, B["N"] + 1):
         for period in range(1, B["P"] + 1):
-            for bs in range(0, 5):
+            for bs in range(0, B["BS"] + 1):
                 for st in ("RAM", "DISK"):
                     for traj in ("maximum", "revolve"):
                         for k in range(1, B["K"] + 1):
@@ -540,13 +540,29 @@ def check_c19(prop, tier):
             for cv in costs:
                 cfgs.append(D.Config("PeriodicDiskRevolve", (ram,) + cv, n))
 
-    def worker(idxs):
-        return [(i,) + c19_eval(cfgs[i], periods[(cfgs[i].params[0],
-                                                  tuple(cfgs[i].params[1:]))])
-                for i in idxs]
+    # siblings (same n and ram, all cost vectors) are evaluated by the same
+    # worker back to back, in both orders
+    groups = {}
+    for i, c in enumerate(cfgs):
+        groups.setdefault((c.N, c.params[0]), []).append(i)
+    glist = list(groups.values())
+
+    def worker(gidx):
+        out = []
+        for g in gidx:
+            for i in glist[g] + glist[g][::-1]:
+                out.append((i,) + c19_eval(
+                    cfgs[i], periods[(cfgs[i].params[0],
+                                      tuple(cfgs[i].params[1:]))]))
+        return out
     nontriv = 0
-    for part in common.pmap(worker, len(cfgs)):
+    for part in common.pmap(worker, len(glist)):
+        seen_ok = set()
         for i, code, msg, nact, nt in part:
+            if code is None:
+                if i in seen_ok:
+                    continue
+                seen_ok.add(i)
             cfg = cfgs[i]
             res.add(evaluations=1, transitions=nact, states=nact)
             if code is None:
